@@ -51,6 +51,57 @@ def to_script(name, hist, kinds):
     return json.dumps(dict(name=name, steps=steps), separators=(",", ":"))
 
 
+RQOS = {"Q_12": [1, 2], "Q_212": [2, 1, 2], "Q_2211": [2, 2, 1, 1], "Q_122": [1, 2, 2]}
+RCFGS = {"quick": ["MCRecv.gen.cfg", "MCRecv.gen.Q_122.cfg"], "thorough": ["MCRecv.gen.cfg", "MCRecv.gen.Q_122.cfg", "MCRecv.gen.Q_2211.cfg"]}
+
+
+def to_script_recv(name, hist, qos):
+    """a history of Recv.tla (broker publishes, the client's acknowledgement writes reach the broker / complete / fail,
+    reconnects with Session Present 0/1) as a scenario: the client's writes are held and released step by step"""
+    steps = [dict(op="cfg", hosts=1, ka=0, tseed=7), dict(op="run", id=1), dict(op="recv", id=2, loop=1), dict(op="advance", ms=1),
+             dict(op="set", auto_write=0)]
+    for h in hist:
+        o = h["op"]
+        if o == "bpub": steps.append(dict(op="bpub", qos=qos[h["m"] - 1], msg="r%d" % h["m"]))
+        elif o == "wdeliver": steps.append(dict(op="wdeliver"))
+        elif o == "wend": steps.append(dict(op="wend", ec="ok"))
+        elif o == "fault": steps.append(dict(op="fault", ec="reset"))
+        elif o == "reconnect":
+            # the pause after the single broker failed, the TCP connect, then the CONNECT write goes through
+            steps += [dict(op="connack", sp=h["sp"]), dict(op="advance", ms=2000), dict(op="wend", ec="ok")]
+        # "read": the harness hands bytes to the client as soon as the broker sends them
+    steps += [dict(op="set", auto_write=1), dict(op="quiesce", ms=150000)]
+    return json.dumps(dict(name=name, steps=steps), separators=(",", ":"))
+
+
+def scripts_recv(tier):
+    cfgs = [c for c in RCFGS[tier] if os.path.exists(os.path.join(vlib.SPEC, c))]
+    h = hashlib.sha256()
+    for f in ["Recv.tla", "MCRecv.tla"] + cfgs:
+        with open(os.path.join(vlib.SPEC, f), "rb") as fh: h.update(fh.read())
+    with open(__file__, "rb") as fh: h.update(fh.read())
+    cp = os.path.join(vlib.WORK, "cache", "l3recv-%s-%s.ndjson" % (tier, h.hexdigest()[:16]))
+    if os.path.exists(cp):
+        with open(cp) as f: return [l.strip() for l in f if l.strip()]
+    out, seen = [], set()
+    for cfg in cfgs:
+        with open(os.path.join(vlib.SPEC, cfg)) as f: qos = RQOS[re.search(r"QosOf <- (\w+)", f.read()).group(1)]
+        rc, o = vlib.tlc("MCRecv.tla", cfg, workers=1, timeout=3000, java_opts="-Xmx4g")
+        if "Error" in o and "SCRIPT" not in o:
+            raise vlib.CheckError("script generation failed for %s: %s" % (cfg, o[-1500:]))
+        for line in o.splitlines():
+            line = line.strip()
+            if line.startswith('"SCRIPT '):
+                hist = json.loads(json.loads(line)[7:])
+                key = cfg + json.dumps([x for x in hist if x["op"] != "read"])
+                if key in seen or not hist: continue
+                seen.add(key)
+                out.append(to_script_recv("l3r-%s-%d" % (cfg.replace("MCRecv.gen.", "").replace(".cfg", "") or "base", len(out)), hist, qos))
+    os.makedirs(os.path.dirname(cp), exist_ok=True)
+    with open(cp, "w") as f: f.write("\n".join(out) + "\n")
+    return out
+
+
 def scripts(tier):
     cfgs = [c for c in CFGS[tier] if os.path.exists(os.path.join(vlib.SPEC, c))]
     h = hashlib.sha256()
@@ -83,6 +134,6 @@ def scripts(tier):
 
 if __name__ == "__main__":
     import sys
-    s = scripts(sys.argv[1] if len(sys.argv) > 1 else "quick")
+    s = (scripts_recv if len(sys.argv) > 2 and sys.argv[2] == "recv" else scripts)(sys.argv[1] if len(sys.argv) > 1 else "quick")
     sys.stderr.write("%d scripts\n" % len(s))
     for l in s: print(l)
